@@ -127,6 +127,11 @@ func path(v ssa.Value) string {
 	case *ssa.Phi:
 		return "phi:" + v.Name()
 	case *ssa.Alloc:
+		// a local that is written exactly once as a whole (range-element copy, captured parameter):
+		// an alias of the stored value for provenance purposes
+		if sv := singleStore(v); sv != nil {
+			return path(sv)
+		}
 		return "alloc:" + v.Name()
 	case *ssa.BinOp:
 		return "(" + path(v.X) + v.Op.String() + path(v.Y) + ")"
@@ -134,6 +139,22 @@ func path(v ssa.Value) string {
 		return path(v.X) + "[:]"
 	}
 	return "?" + v.Name()
+}
+
+// singleStore returns the value stored into a local allocation if it is stored to exactly once as a whole.
+func singleStore(a *ssa.Alloc) ssa.Value {
+	var val ssa.Value
+	n := 0
+	for _, r := range *a.Referrers() {
+		if s, ok := r.(*ssa.Store); ok && s.Addr == ssa.Value(a) {
+			n++
+			val = s.Val
+		}
+	}
+	if n == 1 {
+		return val
+	}
+	return nil
 }
 
 // spilledParam recognises go/ssa's spill of a captured parameter: `t0 = new T (p); *t0 = p` with no other store.
